@@ -83,7 +83,11 @@ class Ldmcsu(Gate):
             # of V is real-valued.
             eig_vals, eig_vecs = np.linalg.eig(self.unitary)
 
-            x_vecs, z_vecs = self._get_x_z(eig_vecs)
+            # The eigenvector matrix has a real main diagonal: read x and z with the
+            # formula for that case even when its secondary diagonal is real as well
+            # (real eigenvectors, i.e. rotations about an axis in the XZ plane).
+            x_vecs = -eig_vecs[0, 1].real
+            z_vecs = eig_vecs[1, 1] - eig_vecs[0, 1].imag * 1.0j
 
             self.half_linear_depth_mcv(
                 x_vecs,
@@ -121,7 +125,7 @@ class Ldmcsu(Gate):
         ) and isclose(su2[1, 0].imag, 0.0, abs_tol=1e-12)
 
         if is_secondary_diag_real:
-            x_value = su2[0, 1]
+            x_value = su2[0, 1].real
             z_value = su2[1, 1]
         else:
             x_value = -su2[0, 1].real
